@@ -137,7 +137,17 @@ impl Op {
 
 #[derive(Clone, Debug, Serialize, Deserialize, Hash, PartialEq, Eq)]
 pub enum Episode {
-    Guard { ty: u8, unclamped: bool, entry: Entry, body: Vec<Op>, end: End },
+    /// `range = Some((a, b))`: the guard is opened on a sub-slice of the buffer (resolved against the current
+    /// length); the elements in front of it and behind it are live neighbours that must not change
+    Guard {
+        ty: u8,
+        unclamped: bool,
+        entry: Entry,
+        body: Vec<Op>,
+        end: End,
+        #[serde(default)]
+        range: Option<(u16, u16)>,
+    },
     Single { idx: u16, ty: u8, unclamped: bool, entry: Entry, body: Vec<Op>, end: End },
     Owned { ty: u8, unclamped: bool, how: Owned },
 }
@@ -165,11 +175,19 @@ pub fn same_words(layout: Layout, a: &Words, b: &Words) -> bool {
         if a[j] == b[j] {
             continue;
         }
-        let both_nan = match layout {
-            Layout::B => f64::from_bits(a[j]).is_nan() && f64::from_bits(b[j]).is_nan(),
-            _ => f32::from_bits(a[j] as u32).is_nan() && f32::from_bits(b[j] as u32).is_nan(),
+        // any NaN equals any NaN (unspecified bits), and +0 equals -0 (the same value; which zero a
+        // `max(x, 0.0)` returns depends on the argument order, not on anything the property promises)
+        let same_value = match layout {
+            Layout::B => {
+                let (x, y) = (f64::from_bits(a[j]), f64::from_bits(b[j]));
+                (x.is_nan() && y.is_nan()) || (x == 0.0 && y == 0.0)
+            }
+            _ => {
+                let (x, y) = (f32::from_bits(a[j] as u32), f32::from_bits(b[j] as u32));
+                (x.is_nan() && y.is_nan()) || (x == 0.0 && y == 0.0)
+            }
         };
-        if !both_nan {
+        if !same_value {
             return false;
         }
     }
@@ -200,6 +218,16 @@ pub fn mutate_words(w: Words, layout: Layout, scale_bits: u64, add_bits: u64) ->
     out
 }
 
+pub fn convert_words(layout: Layout, from: u8, to: u8, unclamped: bool, w: Words) -> Words {
+    match layout {
+        Layout::A => family::convert_a(from, to, unclamped, w),
+        Layout::B => family::convert_b(from, to, unclamped, w),
+        Layout::C => family::convert_c(from, to, unclamped, w),
+        Layout::D => family::convert_d(from, to, unclamped, w),
+        Layout::E => family::convert_e(from, to, unclamped, w),
+    }
+}
+
 // ------------------------------------------------------------------ reference model + observation
 
 #[derive(Clone, Copy, Debug)]
@@ -220,16 +248,23 @@ pub struct Exec<'c, 'a> {
     /// running digest of every word observed through a typed view (goes into the event log)
     obs: simcore::rng::Fnv,
     obs_count: u64,
+    /// the by-value conversion itself panicked on a value of this plan (see `convert`)
+    out_of_domain: std::cell::Cell<bool>,
 }
 
 impl<'c, 'a> Exec<'c, 'a> {
+    /// One by-value conversion of the reference model. If the ORDINARY conversion itself panics on this value
+    /// (the generated colors reach far outside the nominal ranges; a conversion may grow an assertion), the
+    /// in-place conversion will panic just the same and the property has nothing to say: the plan is marked
+    /// out of domain, nothing is compared any more and a panic of the guard operation is not a violation.
     fn convert(&self, from: u8, to: u8, unclamped: bool, w: Words) -> Words {
-        match self.layout {
-            Layout::A => family::convert_a(from, to, unclamped, w),
-            Layout::B => family::convert_b(from, to, unclamped, w),
-            Layout::C => family::convert_c(from, to, unclamped, w),
-            Layout::D => family::convert_d(from, to, unclamped, w),
-            Layout::E => family::convert_e(from, to, unclamped, w),
+        let layout = self.layout;
+        match catch(|| convert_words(layout, from, to, unclamped, w)) {
+            Caught::Ok(out) => out,
+            _ => {
+                self.out_of_domain.set(true);
+                w
+            }
         }
     }
 
@@ -308,6 +343,11 @@ impl<'c, 'a> Exec<'c, 'a> {
         ev!(self.ctx, "{how} {} -> {} depth={} observed={} digest={:016x}", n[f.cur as usize], n[f.orig as usize], self.frames.len(), self.obs_count, self.obs.finish());
     }
 
+    /// What the model says element `k` holds right now.
+    pub fn model_word(&self, k: usize) -> Words {
+        self.words[k]
+    }
+
     pub fn model_write(&mut self, k: usize, w: Words) {
         self.words[k] = w;
         self.ctx.changed();
@@ -336,7 +376,7 @@ impl<'c, 'a> Exec<'c, 'a> {
     /// Oracle: same address and length as the original buffer, and contents
     /// bit-identical to the model.
     pub fn observe(&mut self, addr: usize, len: usize, items: &mut dyn Iterator<Item = Words>) {
-        if self.failed() {
+        if self.failed() || self.out_of_domain.get() {
             return;
         }
         self.ctx.checked();
@@ -525,10 +565,20 @@ impl World for C13 {
             _ if deep => 7 + rng.below(90),
             _ => 7 + rng.below(18),
         } as usize;
+        // One plan in fifty gets a buffer around the sizes a chunked or vectorised in-place loop would use
+        // (in-place conversion is a performance feature; a "fast path" is the likeliest refactor), with a short
+        // history so that the run stays cheap.
+        let big = !deep && index % 50 == 7;
+        let len = if big {
+            let base = *rng.pick(&[32usize, 64, 128, 256, 1024, 4096]);
+            if base == 4096 { base + rng.below(40) as usize } else { base - 1 + rng.below(3) as usize }
+        } else {
+            len
+        };
         let buf: Vec<Words> = (0..len).map(|_| gen_words(rng, layout)).collect();
         let faults = rng.chance(6, 10);
-        let n_eps = 1 + rng.below(3) as usize;
-        let mut budget = if deep { 90i32 } else { 40i32 };
+        let n_eps = if big { 1 } else { 1 + rng.below(3) as usize };
+        let mut budget = if deep { 90i32 } else if big { 3i32 } else { 40i32 };
         let max_depth = if deep { 6 } else { 4 };
         let mut episodes = Vec::new();
         for _ in 0..n_eps {
@@ -536,7 +586,14 @@ impl World for C13 {
             let unclamped = rng.chance(1, 3);
             let entry = if rng.chance(1, 2) { Entry::From } else { Entry::Into };
             let e = match rng.below(10) {
-                0..=6 => Episode::Guard { ty, unclamped, entry, body: gen_body_d(rng, layout, 1, &mut budget, faults, max_depth), end: gen_end(rng, faults) },
+                0..=6 => Episode::Guard {
+                    ty,
+                    unclamped,
+                    entry,
+                    body: gen_body_d(rng, layout, 1, &mut budget, faults, max_depth),
+                    end: gen_end(rng, faults),
+                    range: if rng.chance(1, 4) { Some((rng.below(64) as u16, rng.below(64) as u16)) } else { None },
+                },
                 7 if layout.has_single() && len > 0 => Episode::Single {
                     idx: rng.below(64) as u16,
                     ty,
@@ -589,9 +646,9 @@ impl World for C13 {
         // simplify bodies
         for (ei, ep) in episodes.iter().enumerate() {
             let (body, rebuild): (&Vec<Op>, Box<dyn Fn(Vec<Op>, End) -> Episode>) = match ep {
-                Episode::Guard { ty, unclamped, entry, body, end: _ } => {
-                    let (ty, unclamped, entry) = (*ty, *unclamped, *entry);
-                    (body, Box::new(move |b, e| Episode::Guard { ty, unclamped, entry, body: b, end: e }))
+                Episode::Guard { ty, unclamped, entry, body, end: _, range } => {
+                    let (ty, unclamped, entry, range) = (*ty, *unclamped, *entry, *range);
+                    (body, Box::new(move |b, e| Episode::Guard { ty, unclamped, entry, body: b, end: e, range }))
                 }
                 Episode::Single { idx, ty, unclamped, entry, body, end: _ } => {
                     let (idx, ty, unclamped, entry) = (*idx, *ty, *unclamped, *entry);
@@ -611,6 +668,11 @@ impl World for C13 {
             if end != End::Drop {
                 let mut eps = episodes.clone();
                 eps[ei] = rebuild(body.clone(), End::Drop);
+                out.push(mk(buf.clone(), eps));
+            }
+            if let Episode::Guard { ty, unclamped, entry, body, end, range: Some(_) } = ep {
+                let mut eps = episodes.clone();
+                eps[ei] = Episode::Guard { ty: *ty, unclamped: *unclamped, entry: *entry, body: body.clone(), end: *end, range: None };
                 out.push(mk(buf.clone(), eps));
             }
         }
@@ -673,6 +735,7 @@ impl World for C13 {
                 "owned-conversion-same-allocation",
                 "crash-point-fired",
                 "canary-behind-the-buffer-checked",
+                "guard-on-a-sub-slice",
             ],
             expected_faults: vec!["unwind@guard", "leak", "unwind@convert(k)"],
             time_note: "palette has no clock; simulated time is reported as steps_executed",
@@ -737,14 +800,32 @@ macro_rules! exec_layout {
                 let (addr, len, _cap) = owner.addr_len_cap();
                 let cur_tag = owner.tag();
                 match ep {
-                    Episode::Guard { ty, unclamped, entry, body, end } => {
-                        ev!(ctx, "episode {n}: guard");
-                        let mut ex = Exec { ctx: &mut *ctx, layout, words: std::mem::take(&mut model_words), frames: Vec::new(), base: addr, len, max_live: 0, obs: Default::default(), obs_count: 0 };
+                    Episode::Guard { ty, unclamped, entry, body, end, range } => {
+                        // the part of the buffer the guard is opened on
+                        let (ra, rb) = match range {
+                            None => (0, len),
+                            Some((x, y)) => {
+                                let a = *x as usize % (len + 1);
+                                let b = a + *y as usize % (len - a + 1);
+                                (a, b)
+                            }
+                        };
+                        if (ra, rb) != (0, len) {
+                            ctx.probe("guard-on-a-sub-slice");
+                        }
+                        ev!(ctx, "episode {n}: guard on elements {ra}..{rb}");
+                        let outside: (Vec<Words>, Vec<Words>) = (model_words[..ra].to_vec(), model_words[rb..].to_vec());
+                        let mut ex = Exec { ctx: &mut *ctx, layout, words: model_words[ra..rb].to_vec(), frames: Vec::new(), base: addr + ra * layout.elem_size(), len: rb - ra, max_live: 0, obs: Default::default(), obs_count: 0, out_of_domain: Default::default() };
+                        model_words.clear();
                         ex.model_open(cur_tag, *ty, *unclamped);
-                        let r = catch(|| $open(&mut owner, &mut ex, *ty, *unclamped, *entry, body, *end));
+                        let r = catch(|| $open(&mut owner, (ra, rb), &mut ex, *ty, *unclamped, *entry, body, *end));
                         match r {
                             Caught::Ok(()) => {}
                             Caught::Injected(_) => ex.model_unwind(),
+                            Caught::Foreign(_) if ex.out_of_domain.get() => {
+                                ex.ctx.probe("plan-discarded:the-by-value-conversion-panics-too");
+                                return;
+                            }
                             Caught::Foreign(msg) => {
                                 ex.ctx.fail("panic:guard", &format!("panic:guard:{}", layout.name()), format!("guard operation panicked: {msg}"));
                                 return;
@@ -753,13 +834,21 @@ macro_rules! exec_layout {
                         if ex.failed() {
                             return;
                         }
+                        if ex.out_of_domain.get() {
+                            ex.ctx.probe("plan-discarded:the-by-value-conversion-panics-too");
+                            return;
+                        }
                         if !ex.frames.is_empty() {
                             ex.ctx.fail("harness", "model-frames-left", format!("{} model frames left after the episode", ex.frames.len()));
                             return;
                         }
-                        // the buffer is back in the caller's hands: same place, original type, model contents
+                        // the buffer is back in the caller's hands: same place, original type, model contents in the
+                        // guarded part, and the neighbours in front of it and behind it untouched
                         let (a2, l2, _) = owner.addr_len_cap();
+                        let inner = std::mem::take(&mut ex.words);
                         ex.base = addr;
+                        ex.len = len;
+                        ex.words = outside.0.iter().chain(inner.iter()).chain(outside.1.iter()).copied().collect();
                         let got = $readout(&owner);
                         ex.observe(a2, l2, &mut got.into_iter());
                         model_words = std::mem::take(&mut ex.words);
@@ -780,18 +869,27 @@ macro_rules! exec_layout {
                             max_live: 0,
                             obs: Default::default(),
                             obs_count: 0,
+                            out_of_domain: Default::default(),
                         };
                         ex.model_open(cur_tag, *ty, *unclamped);
                         let r = catch(|| $open_single(&mut owner, &mut ex, k, *ty, *unclamped, *entry, body, *end));
                         match r {
                             Caught::Ok(()) => {}
                             Caught::Injected(_) => ex.model_unwind(),
+                            Caught::Foreign(_) if ex.out_of_domain.get() => {
+                                ex.ctx.probe("plan-discarded:the-by-value-conversion-panics-too");
+                                return;
+                            }
                             Caught::Foreign(msg) => {
                                 ex.ctx.fail("panic:guard", &format!("panic:guard:{}", layout.name()), format!("single-value guard operation panicked: {msg}"));
                                 return;
                             }
                         }
                         if ex.failed() {
+                            return;
+                        }
+                        if ex.out_of_domain.get() {
+                            ex.ctx.probe("plan-discarded:the-by-value-conversion-panics-too");
                             return;
                         }
                         model_words[k] = ex.words[0];
@@ -812,6 +910,19 @@ macro_rules! exec_layout {
                         ev!(ctx, "episode {n}: owned {how:?} -> {} {}", names[*ty as usize], if *unclamped { "unclamped" } else { "clamped" });
                         ctx.step();
                         ctx.cell(names[*ty as usize], match how { Owned::Vec => "Vec::from_color", Owned::Boxed => "Box::from_color", Owned::MapVec => "map_vec_in_place", Owned::MapBox => "map_slice_box_in_place", Owned::VecInto => "Vec::into_color", Owned::BoxedInto => "Box::into_color" });
+                        // the model first: if the by-value conversion panics on one of these values, so will the call
+                        let mut model_after = model_words.clone();
+                        let mut model_panicked = false;
+                        for w in model_after.iter_mut() {
+                            match catch(|| convert_words(layout, cur_tag, *ty, *unclamped, *w)) {
+                                Caught::Ok(out) => *w = out,
+                                _ => model_panicked = true,
+                            }
+                        }
+                        if model_panicked {
+                            ctx.probe("plan-discarded:the-by-value-conversion-panics-too");
+                            return;
+                        }
                         let taken = std::mem::replace(&mut owner, $make(0, &[], 0));
                         let r = catch(|| $vecconv(taken, *ty, *unclamped, *how));
                         let (new_owner, before, after) = match r {
@@ -844,16 +955,22 @@ macro_rules! exec_layout {
                         }
                         ctx.probe("owned-conversion-same-allocation");
                         // element for element the ordinary conversion
-                        let conv = |w: Words| match layout {
-                            Layout::A => family::convert_a(cur_tag, *ty, *unclamped, w),
-                            Layout::B => family::convert_b(cur_tag, *ty, *unclamped, w),
-                            Layout::C => family::convert_c(cur_tag, *ty, *unclamped, w),
-                            Layout::D => family::convert_d(cur_tag, *ty, *unclamped, w),
-                            Layout::E => family::convert_e(cur_tag, *ty, *unclamped, w),
-                        };
-                        for w in model_words.iter_mut() {
-                            *w = conv(*w);
+                        model_words = model_after;
+                        // the (possibly new) spare capacity gets a fresh canary: damage done BY this call was looked
+                        // for at the top of the loop only if it hit the old one
+                        ctx.checked();
+                        if owner.addr_len_cap().2 == _cap {
+                            let damage = owner.canary_damage();
+                            if damage > 0 {
+                                ctx.fail(
+                                    "out-of-bounds-write",
+                                    &format!("out-of-bounds-write:{}", layout.name()),
+                                    format!("{damage} bytes of the spare capacity behind the buffer were overwritten by {how:?}"),
+                                );
+                                return;
+                            }
                         }
+                        owner.canary_fill();
                         let got = $readout(&owner);
                         if !same_buffers(layout, &got, &model_words) {
                             let i = got.iter().zip(model_words.iter()).position(|(a, b)| !same_words(layout, a, b)).unwrap_or(0);
@@ -878,7 +995,7 @@ macro_rules! exec_layout {
                     );
                     return;
                 }
-                if extra_cap > 0 {
+                if owner.addr_len_cap().2 > owner.len() {
                     ctx.probe("canary-behind-the-buffer-checked");
                 }
             }
